@@ -120,6 +120,11 @@ func genObject(r *rand.Rand, kind, apiv string) interface{} {
 	}
 	spec := [][]interface{}{wF("template", wM(wF("spec", wM(pod...))))}
 	if r.Intn(2) == 0 {
+		// a label selector: a map like any other for the merge (its schema marks it `x-kubernetes-map-type: atomic`, which is a
+		// server-side-apply notion)
+		spec = append(spec, wF("selector", wM(wF("matchLabels", wM(wF("app", wStr(r)), wF("tier", wStr(r)))))))
+	}
+	if r.Intn(2) == 0 {
 		spec = append(spec, wF("replicas", wS("!!int", pick(r, []string{"1", "2"}))))
 	}
 	if r.Intn(4) == 0 {
